@@ -139,11 +139,28 @@ CHECKS = {
         note="Integer entries in -2..2 (polynomial routines are thereby decided as identities in practice but formally on the lattice); "
              "eig of non-symmetric tensors, generic Seth-Hill exponents and dtype variants are not covered.",
         ref="5/C17"),
+    "C06": dict(
+        engine="Region",
+        technique="TLA+ law module Region.tla: TLC computes exact volumes of lattice meshes (via MeshOps.tla) and evaluates spec-issued "
+                  "integer-coefficient polynomials, their gradients and hessians at the logged quadrature points, comparing with what real "
+                  "regions/fields return; reference instance and negatives checked at TLC start-up",
+        text="For every volume template (12), boundary template (6), arbitrary-order Lagrange, constant/dual regions and the plane-strain / "
+             "axisymmetric field kinds TLC decides: positive differential volumes summing to the exact geometric volume of straight-sided lattice "
+             "meshes, invariance under a rational rotation + translation, agreement across element families, a warning naming a flipped cell, "
+             "reproduction of polynomial values / gradients / hessians (degree <= order on affine cells, <= 1 on distorted and curved cells), "
+             "exact Gram matrices of the default rule on affine cells, plane-strain padding, axisymmetric hoop entry u_r/R, uniform fast path, "
+             "float32 copy.",
+        note="Fixed point 2^-20 with tolerances 24/96/384 ulp for values/gradients/hessians; meshes of 4-8 cells; curved meshes only for "
+             "positivity, rigid invariance and linear reproduction. Known finding: the MINI templates put the bubble point into the geometry map "
+             "(linear fields are not reproduced; recorded in known_findings.json).",
+        ref="5/C06"),
 }
 
 NOT_YET = {}
 
 ENGINES = [
+    {"name": "Region", "path": "spec/Region.tla", "serves_properties": ["C06"],
+     "kind_free_text": "TLA+ laws of regions/fields: exact lattice volumes, polynomial reproduction evaluated by TLC in fixed point"},
     {"name": "TensorLaws", "path": "spec/TensorLaws.tla", "serves_properties": ["C17"],
      "kind_free_text": "TLA+ exact tensor algebra definitions (Einstein-summation evaluator) + TLC trace validation"},
     {"name": "MeshOps", "path": "spec/MeshOps.tla", "serves_properties": ["C16"],
